@@ -1,8 +1,9 @@
 (* C21  Indexes and UTXO statistics agree with recomputation from the active chain.
         The MuHash of a set is independent of insertion order. *)
 From Coq Require Import NArith Znumtheory Permutation.
-From BV Require Import lib.Ints model.CryptoBase model.MuHash proofs.MuHashArith proofs.MuHashLemmas
-  model.Index model.IndexCoinStats model.IndexTx model.IndexFilter model.IndexSim.
+From BV Require Import lib.Ints model.CryptoBase model.MuHash proofs.MuHashArith proofs.MuHashLemmas proofs.MuHashVal
+  model.Index model.IndexCoinStats model.IndexTx model.IndexFilter model.IndexSim
+  proofs.IndexCoinStatsOps proofs.IndexCoinStatsHist proofs.IndexCoinStatsUtxo proofs.IndexMain proofs.IndexRefuted.
 Local Open Scope Z_scope.
 
 (* ---------------- MuHash3072 (src/crypto/muhash.cpp) ---------------- *)
@@ -11,7 +12,7 @@ Local Open Scope Z_scope.
    3072-bit values (including unreduced ones, as produced by ToNum3072 and by Unserialize). *)
 Theorem C21_muhash_multiply_is_modular_product : forall x a,
   num_ok x -> num_ok a -> num_multiply x a = (x * a) mod P3072.
-Proof. exact num_multiply_spec. Qed.
+Proof. exact main_C21_muhash_multiply_is_modular_product. Qed.
 Print Assumptions C21_muhash_multiply_is_modular_product.
 
 (* GetInverse / Divide: the result is canonical and is the modular quotient whenever the divisor is
@@ -19,12 +20,12 @@ Print Assumptions C21_muhash_multiply_is_modular_product.
 Theorem C21_muhash_divide_is_modular_quotient : forall x a,
   num_ok x -> num_ok a -> invertible a ->
   0 <= num_divide x a < P3072 /\ (num_divide x a * a) mod P3072 = x mod P3072.
-Proof. intros x a Hx Ha Hi. split; [ apply num_divide_range; assumption | apply num_divide_char; assumption ]. Qed.
+Proof. exact main_C21_muhash_divide_is_modular_quotient. Qed.
 Print Assumptions C21_muhash_divide_is_modular_quotient.
 
 (* every non-zero residue is invertible if the modulus is prime *)
 Theorem C21_muhash_invertible_if_prime : forall a, prime P3072 -> a mod P3072 <> 0 -> invertible a.
-Proof. exact prime_invertible. Qed.
+Proof. exact main_C21_muhash_invertible_if_prime. Qed.
 Print Assumptions C21_muhash_invertible_if_prime.
 
 (* The MuHash of a set is independent of insertion order: from any well-formed running state, inserting
@@ -33,7 +34,7 @@ Print Assumptions C21_muhash_invertible_if_prime.
 Theorem C21_muhash_order_independent : forall l l' s,
   mh_ok s -> Permutation l l' ->
   mh_insert_all l s = mh_insert_all l' s /\ mh_finalize (mh_insert_all l s) = mh_finalize (mh_insert_all l' s).
-Proof. intros l l' s Hs Hp. split; [ apply mh_insert_all_perm; assumption | apply muhash_order_independent_state; assumption ]. Qed.
+Proof. exact main_C21_muhash_order_independent. Qed.
 Print Assumptions C21_muhash_order_independent.
 
 (* Insert / Remove in any interleaved order: only the net multiplicity of each element matters
@@ -42,13 +43,13 @@ Theorem C21_muhash_multiset_quotient : forall ops1 ops2,
   (forall d, In d (rem_list ops1 ++ rem_list ops2) -> invertible (mh_to_num3072 d)) ->
   (forall d, mh_net ops1 d = mh_net ops2 d) ->
   mh_finalize (mh_run ops1 mh_empty) = mh_finalize (mh_run ops2 mh_empty).
-Proof. exact mh_multiset_quotient. Qed.
+Proof. exact main_C21_muhash_multiset_quotient. Qed.
 Print Assumptions C21_muhash_multiset_quotient.
 
 (* the finalized number of a sequence is (product of inserted) / (product of removed) *)
 Theorem C21_muhash_finalize_value : forall ops,
   mh_finalize_num (mh_run ops mh_empty) = (prodl (ins_list ops) * finv (prodl (rem_list ops))) mod P3072.
-Proof. exact mh_finalize_num_run. Qed.
+Proof. exact main_C21_muhash_finalize_value. Qed.
 Print Assumptions C21_muhash_finalize_value.
 
 (* Remove cancels Insert (in either order) from any state with an invertible denominator. *)
@@ -56,7 +57,7 @@ Theorem C21_muhash_remove_cancels_insert : forall s x,
   mh_ok s -> invertible (mh_den s) -> invertible (mh_to_num3072 x) ->
   mh_finalize (mh_remove (mh_insert s x) x) = mh_finalize s /\
   mh_finalize (mh_insert (mh_remove s x) x) = mh_finalize s.
-Proof. exact mh_remove_cancels_insert. Qed.
+Proof. exact main_C21_muhash_remove_cancels_insert. Qed.
 Print Assumptions C21_muhash_remove_cancels_insert.
 
 (* Representation independence: two (numerator, denominator) pairs with the same quotient finalize the same. *)
@@ -64,24 +65,99 @@ Theorem C21_muhash_representation_independent : forall s t,
   mh_ok s -> mh_ok t -> invertible (mh_den s) -> invertible (mh_den t) ->
   (mh_num s * mh_den t) mod P3072 = (mh_num t * mh_den s) mod P3072 ->
   mh_finalize s = mh_finalize t.
-Proof. intros. apply mh_finalize_of_num. apply mh_finalize_num_quotient; assumption. Qed.
+Proof. exact main_C21_muhash_representation_independent. Qed.
 Print Assumptions C21_muhash_representation_independent.
 
 (* operator*= is the union and operator/= the difference of the represented multisets. *)
 Theorem C21_muhash_combine : forall ops1 ops2,
   mh_finalize (mh_mul (mh_run ops1 mh_empty) (mh_run ops2 mh_empty)) = mh_finalize (mh_run (ops1 ++ ops2) mh_empty) /\
   mh_finalize (mh_div (mh_run ops1 mh_empty) (mh_run ops2 mh_empty)) = mh_finalize (mh_run (ops1 ++ map mh_op_inv ops2) mh_empty).
-Proof. intros. split; [ apply mh_mul_union | apply mh_div_difference ]. Qed.
+Proof. exact main_C21_muhash_combine. Qed.
 Print Assumptions C21_muhash_combine.
 
 (* Finalize normalises the object without changing what it represents; the serialized running state reads back. *)
 Theorem C21_muhash_finalize_idempotent_and_serialization : forall s,
   mh_ok s -> invertible (mh_den s) ->
   mh_finalize (mh_finalize_state s) = mh_finalize s /\ mh_unserialize (mh_serialize s) = Some s.
-Proof. intros s Hs Hi. split; [ apply mh_finalize_idempotent; assumption | apply mh_serialize_roundtrip; assumption ]. Qed.
+Proof. exact main_C21_muhash_finalize_idempotent_and_serialization. Qed.
 Print Assumptions C21_muhash_finalize_idempotent_and_serialization.
+
+(* ---------------- CoinStatsIndex (src/index/coinstatsindex.cpp, src/kernel/coinstats.cpp) ---------------- *)
+
+(* A history is any sequence of CustomAppend (a block connected on top of the index's chain) and
+   CustomRemove (the top block disconnected by BaseIndex::Rewind; a reorg is some Pops followed by Pushes).
+   It is admissible (hist_ok) when each connected block extends the chain (height = length, prev = hash of
+   the top), its coin elements are invertible in the MuHash group, the from-genesis recomputation of the
+   chain is itself defined (its `assert(unclaimed_rewards <= INT64_MAX)` holds) and genesis is never disconnected.
+
+   CustomRemove after CustomAppend of the same block restores every member exactly (counters, current
+   block hash, and the MuHash object in its finalized representation) and keeps the height index. *)
+Theorem C21_coinstats_append_remove_inverse : forall i x c b x1,
+  cs_inv i x c -> chain_wf (c ++ [b]) -> c <> [] -> cs_append i x b = Ok x1 ->
+  (exists y', cs_replay i (c ++ [b]) = Ok y') ->
+  exists x2, cs_remove x1 b = Ok x2 /\ core x2 = core x /\ cs_dbh x2 = cs_dbh x1.
+Proof. exact main_C21_coinstats_append_remove_inverse. Qed.
+Print Assumptions C21_coinstats_append_remove_inverse.
+
+(* After ANY admissible history from the empty index: no step fails (no `return false`, no assert), the
+   members equal those of a replay of the current chain from genesis, and the height index holds the
+   replay's entry for every block of the chain (cs_inv). *)
+Theorem C21_coinstats_state_is_replay_of_active_chain : forall i steps,
+  hist_ok i [] steps ->
+  exists x c, run_hist i cs_init [] steps = Ok (x, c) /\ cs_inv i x c /\ chain_wf c.
+Proof. exact main_C21_coinstats_state_is_replay_of_active_chain. Qed.
+Print Assumptions C21_coinstats_state_is_replay_of_active_chain.
+
+(* index_eq_recompute: after ANY admissible history, LookUpStats of every block of the current chain
+   answers, and the answer agrees with ComputeUTXOStats(MUHASH) from scratch over the UTXO set of the chain
+   up to that block: same MuHash digest, same output count, same bogo size, same total amount (when the
+   from-scratch CheckedAdd does not overflow) — for every chain whose ledger is valid (every spent coin is in
+   the set with the recorded undo data, no outpoint created twice: utxo_of_chain = Some). *)
+Theorem C21_index_eq_recompute : forall i steps x c k b u,
+  hist_ok i [] steps -> run_hist i cs_init [] steps = Ok (x, c) ->
+  nth_error c k = Some b -> utxo_of_chain (firstn (S k) c) = Some u ->
+  exists e, cs_lookup x (b_hash b) (b_height b) = Some e /\ stats_agree e (compute_utxo_stats u) = true.
+Proof. exact main_C21_index_eq_recompute. Qed.
+Print Assumptions C21_index_eq_recompute.
+
+(* the replay itself against the from-scratch statistics (the linear case, any chain) *)
+Theorem C21_replay_eq_scratch : forall i c y u,
+  (forall b, In b c -> ops_invertible (block_ops b)) ->
+  cs_replay i c = Ok y -> utxo_of_chain c = Some u ->
+  stats_agree (entry_of y) (compute_utxo_stats u) = true.
+Proof. exact main_C21_replay_eq_scratch. Qed.
+Print Assumptions C21_replay_eq_scratch.
+
+(* ---------------- BaseIndex with restarts (src/index/base.cpp) ---------------- *)
+
+(* Intended statement (index_follows_active_chain), NOT proved in this package for the generic BaseIndex model
+   (model/Index.v: Init / Sync / Rewind / BlockConnected / ChainStateFlushed / Commit over any custom index):
+     for every history of (connect, reorg, flush, restart, sync-step) events, once the index is synced its
+     state equals the fold of CustomAppend over the active chain; hence txindex returns each active-chain
+     transaction with its block and the block filter index returns the BIP157 header chain of the active blocks.
+   It is tied by differential execution only (index_sim correspondence).  With restarts the statement is FALSE of
+   the code: an index restart after a reorganization (two or more blocks deep) that was not committed makes
+   CoinStatsIndex abort the node and BlockFilterIndex refuse to initialise.  Witness histories (all blocks empty and
+   valid), computed on the model and replayed on the real classes (finding C21-revert-fallback). *)
+Theorem C21_index_follows_active_chain_with_restarts_refuted :
+  exists evs_live evs_restart,
+    query_summary (sim_run sim0 evs_live) = Some (false, true, true) /\
+    query_summary (sim_run sim0 evs_restart) = Some (true, false, true).
+Proof. exact index_follows_active_chain_with_restarts_refuted. Qed.
+Print Assumptions C21_index_follows_active_chain_with_restarts_refuted.
+
+Theorem C21_blockfilter_restart_after_uncommitted_reorg_refuted :
+  init_failed (sim_run sim0 (bf_refuted_prefix ++ [SvStop; SvStart false false true])) = true.
+Proof. exact blockfilter_restart_after_uncommitted_reorg_init_fails. Qed.
+Print Assumptions C21_blockfilter_restart_after_uncommitted_reorg_refuted.
 
 (* the hypotheses are satisfiable by a concrete non-trivial instance: two real elements, both orders *)
 Example C21_nonvacuous_muhash :
   mh_ok mh_empty /\ Permutation [[1%N]; [2%N; 3%N]] [[2%N; 3%N]; [1%N]] /\ invertible 1.
 Proof. split; [ exact mh_empty_ok | split; [ apply perm_swap | exact invertible_1 ] ]. Qed.
+
+(* hist_ok is satisfiable by a non-trivial history: genesis, one block, a second block, and its disconnection
+   (blocks without transactions, so no invertibility premise is needed) *)
+Example C21_nonvacuous_history :
+  exists x c, run_hist 150 cs_init [] [Push rg; Push ra1; Push ra2; Pop] = Ok (x, c) /\ c = [rg; ra1].
+Proof. eexists. eexists. split; [ vm_compute; reflexivity | reflexivity ]. Qed.
